@@ -157,7 +157,9 @@ struct C15World: World {
         } else if (v.read_only && (writes || s.kind == V_WRITE_RO)) {
           // refused: must throw and change nothing
           bool threw = false; const std::vector<uint8_t> before(mem, mem + mem_size);
-          try { if (s.kind == V_RESET) f.reset(); else if (s.kind == V_INVERT) f.invert(); else f.update(static_cast<int64_t>(s.b)); } catch (const std::logic_error&) { threw = true; }
+          try { if (s.kind == V_RESET) f.reset(); else if (s.kind == V_INVERT) f.invert(); else if (s.kind == V_QAU) f.query_and_update(static_cast<int64_t>(s.b));
+            else if (s.kind == V_UNION || s.kind == V_INTERSECT) { S other = S::builder::create_by_size(num_bits, nh, seed, A(1)); other.update(static_cast<int64_t>(s.b)); if (s.kind == V_UNION) f.union_with(other); else f.intersect(other); }
+            else f.update(static_cast<int64_t>(s.b)); } catch (const std::logic_error&) { threw = true; }
           ctx.require(threw, "C15|write-through-read-only-view-not-refused", names[s.kind]);
           ctx.require(std::memcmp(before.data(), mem, mem_size) == 0, "C15|refused-write-changed-memory", names[s.kind]);
           ctx.fault("refused_op");
@@ -181,8 +183,11 @@ struct C15World: World {
             for (i64 j = 0; j < 20; j++) { other.update(static_cast<int64_t>(s.b + j)); om.insert(canon_i64(s.b + j)); }
             if (!compatible) { bool threw = false; const std::vector<uint8_t> before = m.bits; try { if (s.kind == V_UNION) f.union_with(other); else f.intersect(other); } catch (const std::invalid_argument&) { threw = true; }
               ctx.require(threw && !f.is_compatible(other), "C15|incompatible-set-operation-not-refused", names[s.kind]); ctx.fault("refused_op"); break; }
-            if (s.kind == V_UNION) { f.union_with(other); for (size_t i = 0; i < m.bits.size(); i++) m.bits[i] |= om.bits[i]; for (auto& it : om.inserted) m.inserted.insert(it); }
-            else { f.intersect(other); for (size_t i = 0; i < m.bits.size(); i++) m.bits[i] &= om.bits[i]; m.inserted.clear(); }
+            // a read-only view is a legal SOURCE operand: half of the compatible operands are delivered as a read-only wrap of their own image
+            std::vector<uint8_t, A> oimg(A(1)); std::unique_ptr<S> ro; if ((s.c & 3) == 2) { oimg = other.serialize(); ro.reset(new S(S::wrap(oimg.data(), oimg.size(), A(1)))); ctx.probe("read_only_source_operand"); }
+            const S& operand = ro ? *ro : other;
+            if (s.kind == V_UNION) { f.union_with(operand); for (size_t i = 0; i < m.bits.size(); i++) m.bits[i] |= om.bits[i]; for (auto& it : om.inserted) m.inserted.insert(it); }
+            else { f.intersect(operand); for (size_t i = 0; i < m.bits.size(); i++) m.bits[i] &= om.bits[i]; m.inserted.clear(); }
             mark_others_stale(v); break; }
           case V_INVERT: { f.invert(); for (uint8_t& b : m.bits) b = static_cast<uint8_t>(~b); m.inserted.clear(); mark_others_stale(v); break; }
           case V_RESET: { f.reset(); std::fill(m.bits.begin(), m.bits.end(), 0); m.inserted.clear(); mark_others_stale(v); break; }
